@@ -33,7 +33,7 @@ def make_disc(r, tmp):
         specs.append((r.choice('$CD'), 'F%d' % i, r.choice([1, 100, 256, 700])))
     for d, nm, ln in specs:
         if nm in ('SMALL', 'PAGE1', 'F3', 'F7'):
-            pos += r.choice([1, 2, 30, 60])          # leave free spans of several sizes between the files
+            pos += r.choice([1, 2, 20, 40])          # leave free spans of several sizes between the files
         if nm in ('TEXT', 'BIG'):
             body = b''.join((b'line %d of the file %s\r' % (k, nm.encode())) for k in range(ln // 20))[:ln].ljust(ln, b'.')
         else:
@@ -41,6 +41,7 @@ def make_disc(r, tmp):
         ents.append(dm.Entry(d, nm, False, 0x1900, 0x8023, ln, pos, body))
         pos += (ln + 255) // 256
     # a small file near the end: the last free span is short, the largest one lies in the middle
+    assert pos < 390, pos
     ents.append(dm.Entry('$', 'TAIL', False, 0, 0, 256, 397, r.randbytes(256)))
     cat = dm.Cat(b'FAULTS', 0, 5, 2, 400, dm.catalogue_order(ents))
     s = dm.Surface('acorn', 40, 10, [dm.Volume(None, 0, 400, 0, cat)], 0x1234, 0)
